@@ -157,7 +157,8 @@ def harness(env, case):
     order = list(lv) if lv else list(data_levels)
     if kind.endswith("_float"):
         order = sorted(lv)  # no levels= argument: sorted order
-    kcol = pd.Categorical(kvals, categories=order, ordered=True) if kind.endswith("_ordered") else np.array(kvals, dtype=np.float64 if kind.endswith("_float") else np.int64)
+    # ordered columns declare one more category (9999) that no row has: it is not a level of these data
+    kcol = pd.Categorical(kvals, categories=order[:1] + [9999] + order[1:], ordered=True) if kind.endswith("_ordered") else np.array(kvals, dtype=np.float64 if kind.endswith("_float") else np.int64)
     df = env.frame({"y": env.column("y", n), "x": x, "k": kcol})
     call = {"C_plain_float": "C(k)", "S_plain_float": "S(k)", "T_ref_float": f"T(k, {r})", "C_Sum_omit_float": f"C(k, Sum({r}))",
             "C_of_C_levels": "C(C(k, levels=lv))", "C_of_T_ref_levels": f"C(T(k, {r}, levels=lv))", "C_of_S_omit_levels": f"C(S(k, {r}, levels=lv))",
